@@ -640,10 +640,10 @@ def gen_program(rng, nth, big):
         if rng.random() < 0.3:
             callees.append(k)                 # recursion (bounded by d)
         calls = " ".join("f%d(d - 1);" % c for c in callees)
-        rep = rng.choice([1, 1, 2, 3]) if big else 1
+        rep = rng.choice([1, 2, 2, 3]) if big else 1
         body.append("void f%d(int d) { int i; LOG(0, %d); if (d > 0) for (i = 0; i < %d; i++) { %s } LOG(1, %d); }"
                     % (k, k, rep, calls, k))
-    roots = ["f%d(%d);" % (rng.randrange(0, max(1, nf // 2)), rng.randrange(2, 5 if big else 4))
+    roots = ["f%d(%d);" % (rng.randrange(0, max(1, nf // 2)), rng.randrange(3, 7) if big else rng.randrange(2, 4))
              for _ in range(rng.randrange(1, 4))]
     body.append("static void root(long i) { %s if (i & 1) f%d(2); }" % (" ".join(roots), rng.randrange(nf)))
     body.append(PROG_TAIL)
@@ -671,19 +671,39 @@ def func_table(exe, nf):
     return [tab[i] for i in range(nf)]
 
 
+E2E_TIMEOUTS = []
+
+
+def clean_shm(data):
+    n = 0
+    for m in glob.glob(os.path.join(data, "sid-*.map")):
+        for f in glob.glob("/dev/shm/uftrace-%s-*" % os.path.basename(m)[4:20]):
+            try:
+                os.unlink(f)
+                n += 1
+            except OSError:
+                pass
+    return n
+
+
 def e2e_run(uft, objdir, prog, work, idx, case):
     """one traced run that ends the way `case` says; returns a dict of observations"""
+    if len(E2E_TIMEOUTS) >= 3:
+        return {"skipped": True}          # record hangs: three witnesses are enough
     d = os.path.join(work, "r%d" % idx)
     shutil.rmtree(d, ignore_errors=True)
     os.makedirs(d)
     data, logf = os.path.join(d, "data"), os.path.join(d, "log")
-    cmd = ["timeout", "-s", "KILL", "40", uft, "record", "--no-pager", "--no-event", "--libmcount-path=" + objdir,
+    cmd = ["timeout", "-s", "KILL", "20", uft, "record", "--no-pager", "--no-event", "--libmcount-path=" + objdir,
            "-d", data] + case["opts"] + [prog["exe"], logf, str(case["th"]), str(case["at"]), str(HOWS[case["how"]])]
     t0 = time.time()
     p = subprocess.run(cmd, capture_output=True, text=True, cwd=d)
     ob = {"rc": p.returncode, "wall": time.time() - t0, "stderr": p.stderr[-300:]}
     if p.returncode in (124, 137, -9):
         ob["timeout"] = True
+        E2E_TIMEOUTS.append(idx)
+        ob["shm_left"] = clean_shm(data)           # the killed recorder left its shm objects
+        shutil.rmtree(d, ignore_errors=True)
         return ob
     ob["files"] = sorted(os.listdir(data)) if os.path.isdir(data) else []
     ob["logs"] = read_log(logf, prog["nth"]) if os.path.exists(logf) else []
@@ -695,6 +715,7 @@ def e2e_run(uft, objdir, prog, work, idx, case):
     for c in (["replay"], ["report"], ["dump"]):
         rc, out, err = sh(["timeout", "60", uft] + c + ["--no-pager", "-d", data], timeout=70)
         ob["analysis"][c[0]] = (rc, (err or "")[-200:])
+    ob["shm_left"] = clean_shm(data)
     shutil.rmtree(d, ignore_errors=True)
     return ob
 
@@ -709,20 +730,27 @@ def coq_ecase(ftab, log, dat, crash, nest):
 
 def run_e2e(ctx, objdir):
     rng = ctx.rng
+    del E2E_TIMEOUTS[:]
     uft = os.path.join(objdir, "uftrace")
     work = os.path.join(ctx.scratch, "e2e")
     os.makedirs(work)
     progs = []
     for pi in range(ctx.n(3, 12)):
         nth = [0, 2, 1, 3][pi % 4]
-        nf, src = gen_program(rng, nth, big=(pi % 3 == 2))
-        c = os.path.join(work, "p%d.c" % pi)
-        open(c, "w").write(src)
-        exe = os.path.join(work, "p%d" % pi)
-        sh(["gcc", "-pg", "-O0", "-no-pie", "-pthread", "-o", exe, c], check=True)
-        full = os.path.join(work, "p%d.full" % pi)
-        sh(["timeout", "20", exe, full, "-1", "-1", "9"], check=True, cwd=work)      # (-pg: gmon.out goes to cwd)
-        progs.append({"exe": exe, "nth": nth, "nf": nf, "ftab": func_table(exe, nf), "full": read_log(full, nth),
+        big = (pi % 3 == 2)
+        for attempt in range(40):
+            nf, src = gen_program(rng, nth, big)
+            c = os.path.join(work, "p%d.c" % pi)
+            open(c, "w").write(src)
+            exe = os.path.join(work, "p%d" % pi)
+            sh(["gcc", "-pg", "-O0", "-no-pie", "-pthread", "-o", exe, c], check=True)
+            full = os.path.join(work, "p%d.full" % pi)
+            sh(["timeout", "20", exe, full, "-1", "-1", "9"], check=True, cwd=work)      # (-pg: gmon.out goes to cwd)
+            logs = read_log(full, nth)
+            most = max(len(l) for _, l in logs)
+            if (350 <= most <= 1000) if big else (6 <= most <= 300):
+                break
+        progs.append({"exe": exe, "nth": nth, "nf": nf, "ftab": func_table(exe, nf), "full": logs,
                       "src": src, "id": pi})
     cases = []
     hows = ["sigkill", "segv", "abort", "_exit", "execv", "exit", "finish"]
@@ -751,6 +779,8 @@ def run_e2e(ctx, objdir):
         rj = {"line": "e2e", "case": case, "program": pr["src"]}
         how = "finish" if "finish" in case else case["how"]
         tags = ["e2e:how=" + how, "e2e:threads=%d" % (pr["nth"] + 1)] + ["e2e:opt=" + o for o in case["opts"] if o.startswith("-") and o != "-T"]
+        if ob.get("skipped"):
+            continue
         if ob.get("timeout"):
             ctx.violation("C04 violated: `uftrace record` did not terminate after the tracee %s" % how, rj, True)
             ctx.case(key=("e2e", ci, repr(case)), tags=tags + ["e2e:record-timeout"])
@@ -786,6 +816,8 @@ def run_e2e(ctx, objdir):
             owner.append((ci, ti, tid))
         if nrec > 254:
             tags.append("e2e:buffer-switched")
+        if ob.get("shm_left"):
+            tags.append("e2e:shm-objects-left-behind-by-record")
         ctx.case(key=("e2e", pr["src"], repr(case)), nontrivial=nrec > 0, tags=tags, size=nrec,
                  sample={"e2e_case": case, "records": nrec} if ci == 0 else None)
     if not ecases:
@@ -860,7 +892,7 @@ def replay(ctx, obj):
             return
         res = eval_store(ctx, [c], [r], f0)
         ctx.case(key="replay", sample=case_json(c, r))
-        ctx.log("model expects", model_obs(ctx, c, r, f0))
+        ctx.log("model expects", (model_obs(ctx, c, r, f0) or "")[:400])
         if res is not None:
             store_verdict(ctx, [c], [r], res, f0)
     elif obj.get("line") == "live":
